@@ -15,6 +15,7 @@ Plan gen_c03(uint64_t seed, int tier)
   p.cfg["fo"] = fo;
   gen_sched(p, r);
   gen_backend(p, r);
+  gen_backend_mode(p, r);
   gen_loggers_and_sinks(p, r);
   fix_timescale(p);
   int nloggers = static_cast<int>(p.cfg["nloggers"]);
